@@ -386,5 +386,8 @@ def run(repo, check):
     for f in r4.findings:
         f.rule = 'C06.R4'
     check.add(r4)
+    from sa.rules import c13 as _c13
+    from sa.rules.common import share as _sh
+    _sh(check, repo, _c13.rule_r3, 'C06.R6', 'coders, renderers and querents keep nothing from one subset (or message) to the next (shared with C13.R3)')
     check.assumptions = ['the receiver named `state` denotes the CoderState (confirmed by reading; DESIGN 2.2)',
                          'registers are attributes of CoderState / TemplateData; no module-level mutable state is used by the walk (checked under C13)']
